@@ -1,9 +1,13 @@
 package main
 
 import (
+	"errors"
 	"fmt"
 	"sort"
 	"strings"
+
+	dotfmt "gonum.org/v1/gonum/graph/formats/dot"
+	"verif/simio"
 
 	"gonum.org/v1/gonum/graph"
 	"gonum.org/v1/gonum/graph/encoding"
@@ -54,7 +58,7 @@ func init() {
 
 func runDotText(c *Ctx) *Violation {
 	t := c.T
-	c.Declare("subgraph_to_subgraph_edge", "chained_edge_statement", "nested_subgraph_endpoint", "declared_node_in_subgraph_endpoint")
+	c.Declare("subgraph_to_subgraph_edge", "chained_edge_statement", "nested_subgraph_endpoint", "declared_node_in_subgraph_endpoint", "attribute_statement", "parse_stream_error_injected", "parse_stream_chunked")
 	next := 0
 	fresh := func() string {
 		next++
@@ -156,8 +160,20 @@ func runDotText(c *Ctx) *Violation {
 		}
 		stmts = append(stmts, "\t"+strings.Join(texts, " -> ")+";")
 	}
+	// default attribute statements and a graph attribute: they must not
+	// change the topology, whatever the destination can store
+	if t.Choose(simrt.KWorkload, 2) == 1 {
+		extra := []string{"\tnode [shape=box];", "\tedge [color=red, weight=\"2\"];", "\tgraph [rankdir=LR];", "\tlabel=\"t\";", "\tnode [];"}
+		at := t.Choose(simrt.KWorkload, len(stmts)+1)
+		ins := extra[t.Choose(simrt.KWorkload, len(extra))]
+		stmts = append(stmts[:at:at], append([]string{ins}, stmts[at:]...)...)
+		c.Probe("attribute_statement", 1)
+	}
 	doc := "digraph {\n" + strings.Join(stmts, "\n") + "\n}"
 	c.Instance["document"] = doc
+	if v := dotTextAST(c, doc, next, want); v != nil {
+		return v
+	}
 	return c.Guard("UnmarshalMulti/edge-statements", func() string { return doc }, func() *Violation {
 		dst := dtGraph{multi.NewDirectedGraph()}
 		err := dot.UnmarshalMulti([]byte(doc), dst)
@@ -197,6 +213,125 @@ func runDotText(c *Ctx) *Violation {
 		}
 		if len(ids) != next {
 			return viol("dot-text/UnmarshalMulti/node-count", "the document names %d nodes, the decoded graph has %d\n%s", next, len(ids), doc)
+		}
+		return nil
+	})
+}
+
+// dotTextAST exercises the parser and the AST printer under the decoder:
+//   - ParseBytes(doc).String() is a fixed point of parse-and-print;
+//   - the stream API Parse(io.Reader) returns the same AST for every chunking
+//     of the stream and the injected error (or a parse error) for a stream
+//     that fails or ends early, never a panic or a silently shorter graph;
+//   - the printed document and the original decode to the same topology, also
+//     into a destination that can store neither DOT IDs nor attributes.
+func dotTextAST(c *Ctx, doc string, nNodes int, want map[string]int) *Violation {
+	t := c.T
+	tc := tapeChooser{t}
+	var printed string
+	if v := c.Guard("Parse/print-fixpoint", func() string { return doc }, func() *Violation {
+		f, err := dotfmt.ParseBytes([]byte(doc))
+		c.Case("control", false, hashBytes([]byte(doc)), 1)
+		c.Oracle("ast-print-fixpoint")
+		if err != nil {
+			return viol("dot-text/Parse/rejected", "a valid DOT document is rejected by ParseBytes: %v\n%s", err, doc)
+		}
+		printed = f.String()
+		f2, err := dotfmt.ParseString(printed)
+		if err != nil {
+			return viol("dot-text/Parse/printed-ast-rejected", "File.String() of a parsed document does not parse: %v\nprinted:\n%s\ndocument:\n%s", err, printed, doc)
+		}
+		if again := f2.String(); again != printed {
+			return viol("dot-text/Parse/print-not-a-fixpoint", "parse and print is not a fixed point:\nfirst:\n%s\nsecond:\n%s", printed, again)
+		}
+		return nil
+	}); v != nil {
+		return v
+	}
+	// stream API
+	plan := simio.NoFaults()
+	plan.MaxChunk = 1 + t.Choose(simrt.KFault, 9)
+	plan.ZeroReads = t.Choose(simrt.KFault, 2) == 1
+	plan.EOFWithData = t.Choose(simrt.KFault, 2) == 1
+	mode := t.Choose(simrt.KFault, 3)
+	cut := t.Choose(simrt.KFault, len(doc))
+	switch mode {
+	case 1:
+		plan.ErrAt = cut
+		plan.ErrShort = t.Choose(simrt.KFault, 2) == 1
+	case 2:
+		plan.ErrAt = cut
+		plan.ErrTransient = true
+	}
+	if v := c.Guard("Parse/stream", func() string { return fmt.Sprintf("plan %+v\n%s", plan, doc) }, func() *Violation {
+		rd := &simio.Reader{Data: []byte(doc), Plan: plan, Ch: tc}
+		f, err := dotfmt.Parse(rd)
+		c.Case([]string{"chunking", "err@k", "err@k"}[mode], mode != 0, hashBytes([]byte(doc)), uint64(mode), uint64(cut), uint64(plan.MaxChunk))
+		c.Oracle("parse-stream")
+		if mode == 0 {
+			c.Probe("parse_stream_chunked", 1)
+			if err != nil {
+				return viol("dot-text/Parse/stream-rejected", "Parse rejects a valid document delivered in chunks of at most %d bytes: %v", plan.MaxChunk, err)
+			}
+			if f.String() != printed {
+				return viol("dot-text/Parse/stream-differs", "Parse(reader) and ParseBytes disagree on the same bytes:\n%s\nvs\n%s", f.String(), printed)
+			}
+			return nil
+		}
+		c.Probe("parse_stream_error_injected", 1)
+		if err == nil {
+			return viol("dot-text/Parse/stream-error-swallowed", "the reader failed after %d of %d bytes (transient=%v) and Parse returned a graph and no error:\n%s", cut, len(doc), plan.ErrTransient, f.String())
+		}
+		if !plan.ErrTransient && !errors.Is(err, simio.ErrInjected) {
+			// a parse error for the truncated text would hide the I/O error
+			// only if Parse went on after the failed read
+			return viol("dot-text/Parse/stream-error-replaced", "the reader failed with the injected error after %d bytes, Parse reports %v instead", cut, err)
+		}
+		return nil
+	}); v != nil {
+		return v
+	}
+	// the printed document means the same graph; so does a destination that
+	// stores neither IDs nor attributes
+	return c.Guard("UnmarshalMulti/printed-and-plain", func() string { return printed }, func() *Violation {
+		count := func(text string, plain bool) (nodes, lines int, err error) {
+			if plain {
+				g := multi.NewDirectedGraph()
+				err = dot.UnmarshalMulti([]byte(text), g)
+				nodes = g.Nodes().Len()
+				es := g.Edges()
+				for es.Next() {
+					lines += es.Edge().(multi.Edge).Len()
+				}
+				return nodes, lines, err
+			}
+			g := dtGraph{multi.NewDirectedGraph()}
+			err = dot.UnmarshalMulti([]byte(text), g)
+			nodes = g.Nodes().Len()
+			es := g.Edges()
+			for es.Next() {
+				lines += es.Edge().(multi.Edge).Len()
+			}
+			return nodes, lines, err
+		}
+		wantLines := 0
+		for _, n := range want {
+			wantLines += n
+		}
+		c.Case("control", false, hashBytes([]byte(printed)), 2)
+		c.Oracle("printed-document-same-topology")
+		for _, v := range []struct {
+			what  string
+			text  string
+			plain bool
+		}{{"the printed AST", printed, false}, {"the document, into a destination without DOT IDs or attribute setters", doc, true}, {"the printed AST, into a plain destination", printed, true}} {
+			n, l, err := count(v.text, v.plain)
+			if err != nil {
+				return viol("dot-text/UnmarshalMulti/variant-rejected", "%s is rejected: %v", v.what, err)
+			}
+			if n != nNodes || l != wantLines {
+				return viol("dot-text/UnmarshalMulti/variant-topology", "%s decodes to %d nodes and %d lines, the document means %d nodes and %d lines\n%s", v.what, n, l, nNodes, wantLines, v.text)
+			}
 		}
 		return nil
 	})
